@@ -224,6 +224,7 @@ struct Cfg {
     roundtrip: bool,
     classify_refusals: bool,
     dump_insn: bool,
+    shard: (usize, usize),
 }
 
 fn die(msg: &str) -> ! {
@@ -242,6 +243,7 @@ fn read_plan(path: &str) -> (Cfg, Vec<Job>) {
         roundtrip: true,
         classify_refusals: true,
         dump_insn: false,
+        shard: (0, 1),
     };
     let names: HashMap<&str, usize> = gentab::METHODS.iter().enumerate().map(|(i, m)| (m.name, i)).collect();
     let mut jobs = Vec::new();
@@ -258,6 +260,7 @@ fn read_plan(path: &str) -> (Cfg, Vec<Job>) {
             Some("roundtrip") => cfg.roundtrip = w.next().unwrap() == "1",
             Some("classify_refusals") => cfg.classify_refusals = w.next().unwrap() == "1",
             Some("dump_insn") => cfg.dump_insn = w.next().unwrap() == "1",
+            Some("shard") => cfg.shard = (w.next().unwrap().parse().unwrap(), w.next().unwrap().parse().unwrap()),
             Some("job") => {
                 let name = w.next().unwrap();
                 let nd: usize = w.next().unwrap().parse().unwrap();
@@ -357,6 +360,7 @@ fn run_llvm(cfg: &Cfg, args: &[&str], path: &str) -> (String, String) {
     let errp = format!("{}.err", path);
     let outf = std::fs::File::create(&outp).unwrap_or_else(|e| die(&format!("create {}: {}", outp, e)));
     let errf = std::fs::File::create(&errp).unwrap_or_else(|e| die(&format!("create {}: {}", errp, e)));
+    let t_spawn = std::time::Instant::now();
     let st = Command::new(&cfg.llvm)
         .arg("-triple=aarch64")
         .arg(format!("-mattr={}", cfg.mattr))
@@ -368,6 +372,7 @@ fn run_llvm(cfg: &Cfg, args: &[&str], path: &str) -> (String, String) {
         .status()
         .unwrap_or_else(|e| die(&format!("cannot run llvm-mc: {}", e)));
     let _ = st;
+    prof(7, t_spawn);
     let rd = |p: &str| String::from_utf8_lossy(&std::fs::read(p).unwrap_or_else(|e| die(&format!("read {}: {}", p, e)))).into_owned();
     (rd(&outp), rd(&errp))
 }
@@ -738,8 +743,13 @@ fn process_chunk(cfg: &Cfg, jobs: &[Job], segs: &[Seg], tid: usize, shared: &Mut
     let mut words: Vec<u32> = Vec::new();
     for i in 0..ncases {
         if let Out::Word(w) = outs[i] {
-            widx.push(i);
-            words.push(w);
+            // without the full round trip only the words that are not already proven equal to llvm-mc's
+            // encoding of the requested instruction need the decoder
+            let equal = matches!(asm_of[i].map(|k| &asm.res[k]), Some(AsmRes::Enc(l, _, _)) if *l == w);
+            if cfg.roundtrip || !equal {
+                widx.push(i);
+                words.push(w);
+            }
         }
     }
     let dis_path = format!("{}.d", base);
@@ -752,7 +762,11 @@ fn process_chunk(cfg: &Cfg, jobs: &[Job], segs: &[Seg], tid: usize, shared: &Mut
         match dis_of[i].map(|k| &dis[k]) {
             Some(DisRes::Text(t, _)) => t.clone(),
             Some(DisRes::Invalid) => "<invalid instruction encoding>".to_string(),
-            None => String::new(),
+            None => match (outs[i], asm_of[i].map(|k| &asm.res[k])) {
+                // same word as llvm-mc's: its canonical print of the instruction is the disassembly
+                (Out::Word(w), Some(AsmRes::Enc(l, _, _))) if *l == w => asm.canon(asm_of[i].unwrap()),
+                _ => String::new(),
+            },
         }
     };
 
@@ -1074,7 +1088,14 @@ fn main() {
         die("usage: arm64drv run <plan> <report.json> | arm64drv methods");
     }
     std::panic::set_hook(Box::new(|_| {}));
-    let (cfg, jobs) = read_plan(&args[2]);
+    let (mut cfg, jobs) = read_plan(&args[2]);
+    if let Ok(v) = std::env::var("ARM64DRV_SHARD") {
+        let p: Vec<usize> = v.split('/').map(|x| x.parse().unwrap()).collect();
+        cfg.shard = (p[0], p[1]);
+        cfg.threads = p[2];
+        cfg.scratch = format!("{}/s{}", cfg.scratch, p[0]);
+        std::fs::create_dir_all(&cfg.scratch).unwrap_or_else(|e| die(&format!("{}", e)));
+    }
     let cfg = Arc::new(cfg);
     let jobs = Arc::new(jobs);
 
@@ -1113,6 +1134,12 @@ fn main() {
     }
     if !cur.is_empty() {
         work.push(cur);
+    }
+    // one of several driver processes: every n-th work item (panics do not scale across the threads of one
+    // process, so the Python side starts several single-threaded processes)
+    if cfg.shard.1 > 1 {
+        let (si, sn) = cfg.shard;
+        work = work.into_iter().enumerate().filter(|(k, _)| k % sn == si).map(|(_, w)| w).collect();
     }
     let mut stats = Vec::new();
     for _ in gentab::METHODS {
@@ -1157,7 +1184,7 @@ fn main() {
         }
     }
     if std::env::var("ARM64DRV_PROF").is_ok() {
-        let names = ["call", "text", "asm", "dis", "classify+alts", "roundtrip", "merge"];
+        let names = ["call", "text", "asm", "dis", "classify+alts", "roundtrip", "merge", "(llvm child)"];
         for (i, n) in names.iter().enumerate() {
             eprintln!("prof {:14} {:10.3} s", n, PROF[i].load(Ordering::Relaxed) as f64 / 1e6);
         }
